@@ -38,6 +38,7 @@ func checkC16(c *Ctx) {
 	c.Rule("C16.R1", "for each supported geom type the shape type NewEncoder selects from the field's type name, the concrete go-shp shape geom2Shp builds and the geom type shp2Geom rebuilds from that shape are consistent (Point↔POINT↔*shp.Point↔Point, (Multi)LineString↔POLYLINE↔*shp.PolyLine↔MultiLineString, Polygon/*Bounds↔POLYGON↔*shp.Polygon↔Polygon, MultiPoint↔MULTIPOINT↔*shp.MultiPoint↔MultiPoint)")
 	c.Rule("C16.R2", "every geometry copy loop in both directions is an identity index map over the full part range (dst[j-start] = src[j] for start ≤ j < end, whatever the loop direction); part i runs from parts[i] to parts[i+1], the last one to len(points)")
 	c.Rule("C16.R3", "a ring is closed by appending its first vertex exactly when it is non-empty and first ≠ last")
+	c.Rule("C16.R5", "attribute columns are matched case-insensitively and by tag or name: the decoder's column index is keyed by lower-cased column names, every lookup key is lower-cased, and DecodeRow looks each struct field up once by its tag and once, independently of the tag, by its Go name, handing the column it found to the attribute setter")
 	c.Rule("C16.R4", "encoder kind→field table and decoder kind→parser table cover the same kinds {int, float64, string}; field widths satisfy the documented guarantees (string ≥ 50, float precision ≥ 10, float width ≥ sign+17 digits+point+precision, int width ≥ 10)")
 	p := c.P.Pkg("encoding/shp")
 	if p == nil {
@@ -49,6 +50,8 @@ func checkC16(c *Ctx) {
 	a.indexMaps()
 	a.closing()
 	a.attributes()
+	a.matching()
+	c.Floor("C16.R5", 4)
 	c.Floor("C16.R1", 6)
 	c.Floor("C16.R2", 8)
 	c.Floor("C16.R3", 1)
@@ -476,6 +479,23 @@ func (a *c16) copyShape(fd *ast.FuncDecl, bounds *types.Func) string {
 				if call, ok := unparen(rhs).(*ast.CallExpr); ok && builtinName(info, call) == "append" {
 					continue // ring closing, checked by R3
 				}
+				if se, ok := unparen(rhs).(*ast.SliceExpr); ok {
+					if _, inner := info.TypeOf(lh).Underlying().(*types.Slice); inner {
+						// member carved out of a block allocation: block[lo:hi] with hi-lo = len(member);
+						// whether it may be appended to is R3's business
+						lo, hi := Aff{ok: true}, Aff{}
+						if se.Low != nil {
+							lo = sc.aff(se.Low)
+						}
+						if se.High != nil {
+							hi = sc.aff(se.High)
+						}
+						if lo.ok && hi.ok && lo.Of == nil && !(hi.Of != nil && hi.K-lo.K == 0) {
+							set("member `" + src(lh) + "` is the window `" + src(rhs) + "`, whose length is not that of the source member")
+						}
+						continue
+					}
+				}
 				stores++
 				if part != nil {
 					// dst[i][j-start] = f(src[j])
@@ -674,6 +694,31 @@ func (a *c16) closing() {
 					}
 				}
 			}
+			// the slice appended to must own its backing array: a window X = block[a:b] of a shared
+			// block has spare capacity that belongs to the next ring, and append writes into it
+			shared := ""
+			ast.Inspect(fd.Body, func(m ast.Node) bool {
+				as2, ok := m.(*ast.AssignStmt)
+				if !ok || as2 == as {
+					return true
+				}
+				for i, lh := range as2.Lhs {
+					if !sameExpr(a.info, lh, call.Args[0]) {
+						continue
+					}
+					rhs := as2.Rhs[min(i, len(as2.Rhs)-1)]
+					if se, ok := unparen(rhs).(*ast.SliceExpr); ok {
+						if !(se.Slice3 && se.Max != nil && se.High != nil && sameExpr(a.info, se.Max, se.High)) {
+							shared = src(as2)
+						}
+					}
+				}
+				return true
+			})
+			if shared != "" {
+				c.Bad("C16.R3", name, is.Pos(), "`%s` makes the ring a window of a larger block without limiting its capacity, so the closing `%s` writes the first vertex over the first vertex of the next ring instead of growing this one", shared, src(as))
+				return true
+			}
 			switch {
 			case !neq:
 				c.Bad("C16.R3", name, is.Pos(), "the first vertex is appended under `%s`, which is not 'first vertex ≠ last vertex': closed rings get a duplicate vertex or unclosed rings stay open", src(is.Cond))
@@ -834,4 +879,166 @@ func (a *c16) attributes() {
 		c.Bad("C16.R4", "encoding/shp#decoder-kinds", dfd.Pos(), "encoder and decoder attribute kinds differ: %v", missing)
 	}
 	_ = constant.MakeInt64
+}
+
+// ---------------------------------------------------------------- R5
+
+func (a *c16) matching() {
+	c := a.c
+	decT := c.P.NamedType("encoding/shp", "Decoder")
+	if decT == nil {
+		c.Unk("C16.R5", "encoding/shp.Decoder", token.NoPos, "type anchor does not resolve")
+		return
+	}
+	var idx *types.Var
+	if st, ok := decT.Underlying().(*types.Struct); ok {
+		for i := 0; i < st.NumFields(); i++ {
+			if m, ok := st.Field(i).Type().Underlying().(*types.Map); ok {
+				if b, ok := m.Key().Underlying().(*types.Basic); ok && b.Kind() == types.String {
+					if e, ok := m.Elem().Underlying().(*types.Basic); ok && e.Info()&types.IsInteger != 0 {
+						idx = st.Field(i)
+					}
+				}
+			}
+		}
+	}
+	if idx == nil {
+		c.Unk("C16.R5", "encoding/shp.Decoder#column-index", token.NoPos, "no map[string]int field found on Decoder")
+		return
+	}
+	isIdx := func(e ast.Expr) bool {
+		sel, ok := unparen(e).(*ast.SelectorExpr)
+		if !ok {
+			return false
+		}
+		sl := a.info.Selections[sel]
+		return sl != nil && sl.Obj() == idx
+	}
+	for _, fn := range c.P.RepoFuncs() {
+		if c.P.DeclPkg(fn) != a.p {
+			continue
+		}
+		fd := c.P.Decl(fn)
+		sc := newFnScope(a.info, fd.Body)
+		// classification of a key expression
+		var classify func(e ast.Expr, depth int, lower *bool, kinds map[string]bool)
+		classify = func(e ast.Expr, depth int, lower *bool, kinds map[string]bool) {
+			if depth > 5 || e == nil {
+				return
+			}
+			ast.Inspect(e, func(n ast.Node) bool {
+				switch x := n.(type) {
+				case *ast.CallExpr:
+					if f := callee(a.info, x); f != nil {
+						if isFuncIn(f, "strings", "ToLower") {
+							*lower = true
+						}
+						if f.Pkg() != nil && f.Pkg().Path() == "reflect" && (f.Name() == "Get" || f.Name() == "Lookup") {
+							kinds["tag"] = true
+							return false
+						}
+					}
+				case *ast.SelectorExpr:
+					if sl := a.info.Selections[x]; sl != nil && sl.Kind() == types.FieldVal {
+						if v, ok := sl.Obj().(*types.Var); ok && v.Pkg() != nil && v.Pkg().Path() == "reflect" && v.Name() == "Name" {
+							kinds["name"] = true
+							return false
+						}
+					}
+				case *ast.Ident:
+					if o := objOf(a.info, x); o != nil {
+						if _, isVar := o.(*types.Var); isVar {
+							ds := sc.defs[o]
+							allLower := len(ds) > 0
+							for _, d := range ds {
+								if d == nil {
+									allLower = false
+									continue
+								}
+								lw := false
+								classify(d, depth+1, &lw, kinds)
+								if !lw {
+									allLower = false
+								}
+							}
+							if allLower {
+								*lower = true
+							}
+							if len(ds) == 0 {
+								kinds["other:"+o.Name()] = true
+							}
+						}
+					}
+				}
+				return true
+			})
+		}
+		nStore, nLookup := 0, 0
+		byKind := map[string]bool{}
+		usesReflectFields := false
+		var firstLookup token.Pos
+		ast.Inspect(fd.Body, func(n ast.Node) bool {
+			as, ok := n.(*ast.AssignStmt)
+			if !ok {
+				return true
+			}
+			// stores M[k] = i
+			for _, lh := range as.Lhs {
+				if ix, ok := unparen(lh).(*ast.IndexExpr); ok && isIdx(ix.X) {
+					nStore++
+					lw := false
+					classify(ix.Index, 0, &lw, map[string]bool{})
+					cons := fmt.Sprintf("%s#store:%s", c.P.FuncName(fn), src(lh))
+					if lw {
+						c.OK("C16.R5", cons, as.Pos(), "column index keyed by the lower-cased column name")
+					} else {
+						c.Bad("C16.R5", cons, as.Pos(), "the column index is keyed by `%s`, which is not lower-cased: lookups are lower-cased, so a column with capitals is never found", src(ix.Index))
+					}
+				}
+			}
+			// lookups j, ok := M[k]
+			if len(as.Rhs) == 1 {
+				if ix, ok := unparen(as.Rhs[0]).(*ast.IndexExpr); ok && isIdx(ix.X) {
+					nLookup++
+					if firstLookup == token.NoPos {
+						firstLookup = as.Pos()
+					}
+					lw := false
+					kinds := map[string]bool{}
+					classify(ix.Index, 0, &lw, kinds)
+					cons := fmt.Sprintf("%s#lookup:%s", c.P.FuncName(fn), src(ix.Index))
+					if !lw {
+						c.Bad("C16.R5", cons, as.Pos(), "lookup key `%s` is not lower-cased while the index is: matching is no longer case-insensitive", src(ix.Index))
+						return true
+					}
+					var ks []string
+					for k := range kinds {
+						ks = append(ks, k)
+					}
+					sort.Strings(ks)
+					if kinds["tag"] || kinds["name"] {
+						usesReflectFields = true
+					}
+					if len(ks) == 1 {
+						byKind[ks[0]] = true
+					}
+					c.OK("C16.R5", cons, as.Pos(), "lower-cased key derived from %v", ks)
+				}
+			}
+			return true
+		})
+		if usesReflectFields {
+			cons := c.P.FuncName(fn) + "#tag-or-name"
+			switch {
+			case !byKind["tag"]:
+				c.Bad("C16.R5", cons, firstLookup, "no lookup is keyed by the struct tag alone: a field whose tag names the column is not matched by it")
+			case !byKind["name"]:
+				c.Bad("C16.R5", cons, firstLookup, "no lookup is keyed by the Go field name alone: a field that carries a tag is never matched by its name, so it silently keeps its zero value when the file's column is named after the field")
+			default:
+				c.OK("C16.R5", cons, firstLookup, "one lookup by tag, one independent lookup by field name")
+			}
+		}
+		_ = nStore
+		_ = nLookup
+	}
 }
